@@ -16,6 +16,13 @@ Theorem C13_rread : forall m count avail,
 Proof. exact rread_fits. Qed.
 Print Assumptions C13_rread.
 
+(** the same for a Tread on an xattr fid (value of any length, any offset) *)
+Theorem C13_rread_xattr : forall m count off vlen,
+  11 <= m ->
+  sreply_frame (txread_handle m count off vlen) <= m /\ txread_handle m count off vlen <> SPanic.
+Proof. exact xread_fits. Qed.
+Print Assumptions C13_rread_xattr.
+
 (** Rreaddir: whatever count and whatever entries the backend returned *)
 Theorem C13_rreaddir : forall m count sizes,
   11 <= m -> sreply_frame (treaddir_handle m count sizes) <= m.
